@@ -45,6 +45,9 @@ pub(crate) enum Ev {
     ForkAll,
     /// the next proof answer of the peer arrives well-formed but with a bogus MMR proof
     DeliverCorrupt(usize),
+    /// the next transactions-proof answer of the peer lists one requested hash as missing as
+    /// often as hashes were requested (right count, but the other hashes are not covered)
+    DeliverDupMissing(usize),
 }
 
 const REFRESH: [u64; 2] = [0, 60_001];
@@ -285,7 +288,9 @@ impl<'a> Model for FetchModel<'a> {
         sim.connect(2);
         sim.converge(60);
         if self.start_in_flight {
+            // two transactions in one request (Y is on the chain, YF only on the fork) + a header
             self.call_tx(&mut sim, 1);
+            self.call_tx(&mut sim, 3);
             self.call_hd(&mut sim, 0);
             sim.cm().tick_lc(1);
             sim.pump_out();
@@ -334,6 +339,9 @@ impl<'a> Model for FetchModel<'a> {
             for p in 1..=2usize {
                 if sim.queue.iter().find(|m| m.peer == p).map(|m| corrupt(&m.data).is_some()).unwrap_or(false) {
                     v.push(Ev::DeliverCorrupt(p));
+                }
+                if sim.queue.iter().find(|m| m.peer == p).map(|m| dup_missing(&m.data).is_some()).unwrap_or(false) {
+                    v.push(Ev::DeliverDupMissing(p));
                 }
             }
         }
@@ -384,6 +392,18 @@ impl<'a> Model for FetchModel<'a> {
                         m.data = d;
                         m.note = format!("{} [bogus proof]", m.note);
                     }
+                    sim.deliver_msg(m);
+                }
+            }
+            Ev::DeliverDupMissing(p) => {
+                self.track.borrow_mut().corrupts += 1;
+                if let Some(i) = sim.queue.iter().position(|m| m.peer == *p) {
+                    let mut m = sim.queue.remove(i).unwrap();
+                    if let Some(d) = dup_missing(&m.data) {
+                        m.data = d;
+                        m.note = format!("{} [one hash missing n times]", m.note);
+                    }
+                    // (what this deviating peer calls missing is no honest report)
                     sim.deliver_msg(m);
                 }
             }
@@ -544,6 +564,30 @@ fn corrupt(data: &[u8]) -> Option<ckb_network::bytes::Bytes> {
     }
 }
 
+/// A SendTransactionsProof answering >= 2 hashes, rewritten to "the first requested hash is
+/// missing", repeated once per requested hash.
+fn dup_missing(data: &[u8]) -> Option<ckb_network::bytes::Bytes> {
+    let msg = packed::LightClientMessage::from_compatible_slice(data).ok()?;
+    match msg.to_enum() {
+        packed::LightClientMessageUnion::SendTransactionsProof(m) => {
+            let mut requested: Vec<packed::Byte32> = vec![];
+            for fb in m.filtered_blocks().into_iter() {
+                for tx in fb.transactions().into_iter() {
+                    requested.push(tx.calc_tx_hash());
+                }
+            }
+            requested.extend(m.missing_tx_hashes().into_iter());
+            if requested.len() < 2 {
+                return None;
+            }
+            let dup: Vec<packed::Byte32> = requested.iter().map(|_| requested[0].clone()).collect();
+            let c = packed::SendTransactionsProof::new_builder().last_header(m.last_header()).missing_tx_hashes(dup.pack()).build();
+            Some(packed::LightClientMessage::new_builder().set(c).build().as_bytes())
+        }
+        _ => None,
+    }
+}
+
 fn build_chains(env: &Env) -> (Chain, Chain) {
     let mut main = Chain::new(std::sync::Arc::clone(&env.consensus), scen::wavy_plan(6));
     let acts = vec![
@@ -575,6 +619,7 @@ fn parse_ev(s: &str) -> Option<Ev> {
         "SilentSwitch" => Ev::SilentSwitch(*a.first()? as usize),
         "ForkAll" => Ev::ForkAll,
         "DeliverCorrupt" => Ev::DeliverCorrupt(*a.first()? as usize),
+        "DeliverDupMissing" => Ev::DeliverDupMissing(*a.first()? as usize),
         _ => return None,
     })
 }
@@ -592,6 +637,7 @@ fn signature(hist: &[Ev], class: &str) -> String {
             Ev::Disconnect(_) => Some("disconnect".to_owned()),
             Ev::Refresh(1) => Some("timeout".to_owned()),
             Ev::DeliverCorrupt(_) => Some("bogus-proof".to_owned()),
+            Ev::DeliverDupMissing(_) => Some("dup-missing".to_owned()),
             _ => None,
         })
         .collect();
